@@ -318,6 +318,10 @@ pub fn block(name: &str, c: &AlphaCtx, out: &mut Vec<Op>) {
             for h in 0..4 {
                 out.push(Op::arg(OpK::ExtendHint, h));
             }
+            // requests the allocator itself refuses (Err(AllocError)): far beyond RAM, below the layout limit
+            for sh in [46u32, 52] {
+                out.push(Op::arg(OpK::TryReserve, 1u64 << sh));
+            }
             for sh in [60u32, 61, 62, 63] {
                 out.push(Op::arg(OpK::TryReserve, 1u64 << sh));
                 out.push(Op::arg(OpK::TryReserve, (1u64 << sh) - 1));
